@@ -662,6 +662,14 @@ func (dr *dirRepo) indexLoad(force, locked bool) error {
 		return err
 	}
 	defer fh.Close()
+	if !dr.exists {
+		// a directory is only a repo when it is an OCI layout, an index.json on its own is not loaded (and rewritten)
+		//#nosec G304 internal method is only called with filenames within admin provided path.
+		layoutBytes, errLayout := os.ReadFile(filepath.Join(dr.path, layoutFile))
+		if errLayout != nil || !layoutVerify(layoutBytes) {
+			return fmt.Errorf("%s is not an OCI layout%.0w", dr.path, types.ErrNotFound)
+		}
+	}
 	stat, err := fh.Stat()
 	if err != nil {
 		return err
